@@ -83,6 +83,7 @@ pub fn run(tier: Tier) -> i32 {
             match synth(&e, u) {
                 Err(er) => rep.violation("synthesis", format!("synthesis fails at {} dB: {}", vol, er), rp),
                 Ok(w) => {
+                    rep.outcome(hash_f64s(&w[..w.len().min(256)]));
                     if w.len() != w0.len() {
                         rep.violation("length", format!("{} samples at {} dB vs {} at 0 dB", w.len(), vol, w0.len()), rp);
                         continue;
